@@ -495,6 +495,12 @@ class World:
                         r.violation('C16/reconnect-attempts-too-frequent/by-pollers', f'reconnect interval 3 s, three attempts of the poller within one interval: {[round(a - dev["dropped"], 3) for a in mine]}', case)
                         return
                     continue
+                if any(1e-3 < b - a < 3 - 0.05 for a, b in zip(mine, mine[1:])):
+                    # not the listed check-then-store race (there both callers pass the time check in the same instant): an
+                    # attempt started some time after another one, within the interval
+                    r.violation(f'C16/reconnect-attempts-too-frequent/by-{src}s/some-time-after-another-attempt', f'reconnect interval 3 s, attempts by {src}s at '
+                                f'{[round(a - dev["dropped"], 3) for a in mine]}', case)
+                    return
                 if any(b - a < 3 - 0.05 for a, b in zip(mine, mine[1:])):
                     r.violation(f'C16/reconnect-attempts-too-frequent/by-{src}s', f'reconnect interval 3 s, attempts by {src}s at {[round(a - dev["dropped"], 3) for a in mine]}', case)
                     return
